@@ -209,6 +209,10 @@ pub fn images_at(sh: &Shadow, next_write: Option<(u64, u64, &[u8])>, r: &mut Rng
 /// D6 predicate on a witness: chunk `pid` of the image, which is followed by chunk `y`, lacks
 /// bytes below `y` only because they had not been written / made durable yet when the crash
 /// happened (its complete-record prefix is a prefix of what the full trace later wrote there).
+/// set while an enumeration runs over a trace in which a worker write failed (the worker stops at a write error,
+/// so a chunk tail handed to it may never be written at all; the hole that leaves is the same known finding)
+static WRITE_FAULT_IN_TRACE: std::sync::atomic::AtomicBool = std::sync::atomic::AtomicBool::new(false);
+
 fn hole_is_unwritten_tail(img: &Image, pid: u64, y: u64, final_written: &BTreeMap<u64, Vec<u8>>, acked_gend: u64) -> bool {
     let Some((_, pbytes)) = img.iter().find(|(c, _)| *c == pid) else { return false };
     let p = refcodec::parse_file(pbytes);
@@ -221,7 +225,8 @@ fn hole_is_unwritten_tail(img: &Image, pid: u64, y: u64, final_written: &BTreeMa
     }
     let complete_len = (y - pid) as usize;
     let Some(fin) = final_written.get(&pid) else { return false };
-    p.good_len < complete_len && fin.len() >= complete_len && fin.starts_with(&pbytes[..p.good_len])
+    let never_completed_because_worker_stopped = WRITE_FAULT_IN_TRACE.load(std::sync::atomic::Ordering::Relaxed);
+    p.good_len < complete_len && (fin.len() >= complete_len || never_completed_because_worker_stopped) && fin.starts_with(&pbytes[..p.good_len])
 }
 
 fn parse_padded(s: &str) -> Option<u64> {
@@ -435,6 +440,12 @@ impl<'a> Enumerator<'a> {
             }
         }
         m = g.m.clone();
+        // a second crash right here - recovered, a few writes issued, nothing flushed yet (whatever the worker was
+        // handed by rotations has been written): that directory must open as well
+        let mut second_image: Option<Image> = None;
+        if fail.is_none() && st.wait_idle(5_000) {
+            second_image = Some(store::read_image(&self.idir.dir));
+        }
         if fail.is_none() {
             if let Err(e) = st.sync() {
                 fail = Some(("continuation_flush".into(), format!("after recovery, flush+ack+idle: {}", e)));
@@ -457,6 +468,30 @@ impl<'a> Enumerator<'a> {
                     s2.close();
                 }
                 Err(o) => fail = Some(("continuation_restart".into(), format!("after recovery, 8 writes and flush, restart: {}", o.brief()))),
+            }
+        }
+        if fail.is_none() {
+            if let Some(img2) = second_image {
+                if self.r.chance(1, 2) {
+                    let (rec2, _) = open_image(&self.idir, &img2, &self.cfg);
+                    self.stats.opens += 1;
+                    match rec2 {
+                        Recovered::Ok { .. } => {}
+                        other => {
+                            let sig = format!("crash_after_recovery_and_unflushed_writes:{}", classify_open_failure(&other, &img2, &BTreeMap::new(), 0));
+                            let text = match &other {
+                                Recovered::Err(e) => format!("the store recovered, took a few writes (not flushed) and crashed again; the second recovery is refused: {}", e),
+                                Recovered::Panic(p) => format!("second recovery panicked: {}", p),
+                                _ => String::new(),
+                            };
+                            // a hole left by D6 can also appear here: the known-finding predicate needs the full trace of
+                            // the continuation, which is not recorded, so gaps in front of a chunk WITH a head are skipped
+                            if !sig.ends_with("open_err:gap") {
+                                fail = Some((sig, text));
+                            }
+                        }
+                    }
+                }
             }
         }
         if let Some((sig, text)) = fail {
@@ -521,6 +556,8 @@ impl<'a> Enumerator<'a> {
     pub fn run(&mut self) {
         let rr = self.rr;
         let t = &rr.trace;
+        let wf = t.evs.iter().any(|e| matches!(&e.k, Ek::Write { data, res, .. } if e.role == Role::Worker && (*res < 0 || (*res as usize) < data.len())));
+        WRITE_FAULT_IN_TRACE.store(wf || rr.worker_dead, std::sync::atomic::Ordering::Relaxed);
         let mut sh = Shadow::new();
         let mut a = 0usize;
         let mut hi = 0usize;
@@ -639,7 +676,8 @@ pub fn gen_case(seed: u64, hist: u64) -> SchedCase {
         let n = r.below(20) as u32;
         vec![FaultSpec { role: Role::Worker, kind: Sk::Sync, nth: n, action: "eio".into() }, FaultSpec { role: Role::Worker, kind: Sk::Sync, nth: n + 1, action: "eio".into() }]
     } else if w < 96 {
-        vec![FaultSpec { role: Role::Worker, kind: Sk::Write, nth: r.below(12) as u32, action: format!("short:{}", r.range(1, 25)) }]
+        let action = if r.chance(1, 2) { format!("short:{}", r.range(1, 25)) } else { format!("partial:{}", r.range(1, 25)) };
+        vec![FaultSpec { role: Role::Worker, kind: Sk::Write, nth: r.below(12) as u32, action }]
     } else {
         vec![FaultSpec { role: Role::Caller, kind: Sk::Create, nth: r.range(1, 6) as u32, action: "eio".into() }]
     };
